@@ -5,6 +5,7 @@ packet's fate explicit in the event) and over the active-peer set model of `Peer
 -/
 import AnemoModel.Views
 import AnemoModel.Peers
+import AnemoModel.Lemmas.Node
 namespace Anemo.Views
 
 /-! ### a dead end is noticed by the other end -/
@@ -388,6 +389,33 @@ theorem C09_absent_until_add (own : Nat) (s : Active) (op : Op) (p : Nat) (h : l
         simp only [heq]
         exact ler _ _ h
       · exact h
+
+/-- **An entry of the connected set exists only while the handler task of exactly that connection is
+running, and a running handler without an entry serves a connection this node has already closed**
+(so it exits) - for every history of established connections (inbound or outbound, replacing or
+losing the tie-break), handler exits and explicit disconnects. -/
+theorem C09_entry_iff_handler (own : Nat) (ops : List NodeOp) (hok : Node.runOk own {} ops) :
+    let n := ({} : Node).run own ops
+    (∀ p ∈ n.active.peers, ∃ c ∈ n.handlers, c.peer = p ∧ lookupConn n.active.conns p = some c) ∧
+    (∀ c ∈ n.handlers, lookupConn n.active.conns c.peer = some c ∨ c.id ∈ n.active.closed) := by
+  have h := Node.run_inv own ops {} Node.inv_init hok
+  refine ⟨?_, ?_⟩
+  · intro p hp
+    simp only [Active.peers, List.mem_map] at hp
+    obtain ⟨e, he, rfl⟩ := hp
+    refine ⟨e.2, h.entryHasHandler e he, h.active.keyed e he, ?_⟩
+    exact lookupConn_of_mem_nodup _ _ _ h.active.nodup he
+  · intro c hc
+    rcases (h.handlerAccounted c hc).2 with hcl | hin
+    · exact Or.inr hcl
+    · exact Or.inl (lookupConn_of_mem_nodup _ _ _ h.active.nodup hin)
+
+/-- the hypothesis is satisfiable: a re-dial that replaces, then the stale handler's exit -/
+example : Node.runOk 5 {} [.established ⟨1, 9, .outbound⟩, .established ⟨2, 9, .outbound⟩, .handlerExit 1 .locallyClosed, .disconnect 9] ∧
+    (({} : Node).run 5 [.established ⟨1, 9, .outbound⟩, .established ⟨2, 9, .outbound⟩, .handlerExit 1 .locallyClosed]).active.peers = [9] := by
+  refine ⟨?_, by decide⟩
+  simp only [Node.runOk, NodeOp.freshFor, and_true]
+  decide
 
 /-- **every connection that is not registered is closed**: whatever `add` decides, the connection it
 does not keep (the newcomer that lost the tie-break, or the replaced one) is closed by it -/
